@@ -2,7 +2,7 @@
 from tx import cases, opaque
 from tx.b09syntax import Bad, check_expr, check_program
 from tx.opaque import OpaqueUse
-from tx.p_c05 import ob
+from tx.p_c05 import ob, guarded
 from tx.run_cases import norm
 
 EXPR_CLASSES = {"BasicArrayRef", "BasicBinaryExp", "BasicBooleanBinaryExp", "BasicOpExp", "BasicBooleanOpExp", "BasicParenExp", "BasicBooleanParenExp",
@@ -90,6 +90,79 @@ def fornext_closers():
 _c07_all = obligations
 
 
+def quote_balance():
+    """whatever the source does with quotes, a converted program has closed string literals only: on every emitted line the
+    number of double quotes is even (BasicLiteral writes its text between quotes without escaping, so no terminal may let a
+    quote into a text)"""
+    from coco.b09.compiler import convert
+
+    def run():
+        res = []
+        sources = ['DATA "HELLO', 'DATA AB"CD,3', 'DATA "A","B', 'DATA X,"Y",Z"', 'A$="X', 'A$(1)="FOO', 'LET B$(I,J)="X Y', 'PRINT "A":Q$(2)="TAIL', "REM it\"s", "'5\" disk",
+                   'PRINT "a";"b', 'INPUT "p";A$', 'A$="a"+"b', 'IF A=1 THEN N$(K)="YES', 'DATA \'"\'', 'DATA A\'B"C']
+        for src in sources:
+            bad = []
+            for opts in (dict(), dict(default_str_storage=80, initialize_vars=True)):
+                try:
+                    text = convert("10 %s\n20 END\n" % src, add_standard_prefix=False, **opts)
+                except Exception:  # noqa  (refused: nothing is emitted)
+                    continue
+                for line in text.split("\n"):
+                    code = line
+                    if "(*" in code:        # comments carry source text verbatim; the statement before them is judged
+                        code = code.split("(*")[0]
+                    if code.count('"') % 2:
+                        bad.append(line)
+            res.append(ob("quotes/%s" % src, not bad, "refused, or every emitted statement has closed literals", bad[:2] or "ok"))
+        return res
+    return guarded("quotes", run)
+
+
+def library_blocks():
+    """the bundled procedures are emitted text too: in every procedure of the real ecb.b09 the block keywords balance
+    (IF..THEN/ENDIF, FOR/NEXT, WHILE/ENDWHILE, LOOP/ENDLOOP, REPEAT/UNTIL, EXITIF/ENDEXIT) and there is no `ELSE IF` on one line
+    (BASIC09 has none)"""
+    import re
+    from tx import ecbsig
+
+    def run():
+        sig = ecbsig.parse()
+        bad = []
+        pairs = {"IF": "ENDIF", "FOR": "NEXT", "WHILE": "ENDWHILE", "LOOP": "ENDLOOP", "REPEAT": "UNTIL", "EXITIF": "ENDEXIT"}
+        for name, proc in sig.items():
+            stack = []
+            for raw in proc["body"]:
+                l = re.sub(r'"[^"]*"', '""', raw.strip())
+                l = re.split(r"\(\*|\bREM\b", l, flags=re.I)[0].strip()
+                for part in [x.strip() for x in l.split("\\")]:
+                    u = part.upper()
+                    w = re.split(r"[\s(]", u, 1)[0] if u else ""
+                    if re.match(r"^\d+\s", u):
+                        u = re.sub(r"^\d+\s+", "", u)
+                        w = re.split(r"[\s(]", u, 1)[0] if u else ""
+                    if w == "IF" and re.search(r"\bTHEN\s+\d+$", u):
+                        pass            # one-line IF ... THEN <line number>
+                    elif w == "IF":
+                        stack.append("IF")      # block IF (a statement may follow THEN on the same line; a later ENDIF closes it)
+                    elif w == "ELSE":
+                        if u != "ELSE":
+                            bad.append("%s: `%s` - BASIC09 has no ELSE IF / statement after ELSE on the same line" % (name, part))
+                        elif not stack or stack[-1] != "IF":
+                            bad.append("%s: ELSE outside an IF block" % name)
+                    elif w in ("FOR", "WHILE", "LOOP", "REPEAT", "EXITIF"):
+                        stack.append(w)
+                    elif w in pairs.values():
+                        opener = next(k for k, v in pairs.items() if v == w)
+                        if not stack or stack[-1] != opener:
+                            bad.append("%s: %s closes %s" % (name, w, stack[-1] if stack else "nothing"))
+                        else:
+                            stack.pop()
+            if stack:
+                bad.append("%s: %s never closed" % (name, ", ".join(stack)))
+        return [ob("library/block keywords balance in every bundled procedure", not bad and len(sig) > 40, "balanced in all %d procedures" % len(sig), bad[:4] or "balanced")]
+    return guarded("library/blocks", run)
+
+
 def bundled_text():
     """the bundled procedures are part of the emitted text: no template tag (`STRING<<>>`) of the tool survives in any
     bundle at any string size (shared with C13)"""
@@ -98,4 +171,4 @@ def bundled_text():
 
 
 def obligations():  # noqa: F811
-    return _c07_all() + fornext_closers() + bundled_text()
+    return _c07_all() + fornext_closers() + bundled_text() + quote_balance() + library_blocks()
